@@ -30,6 +30,10 @@ extern convertToFloat
   props C06
   option pure
 
+extern convertToBool
+  props C06
+  option pure
+
 func isComparisonOperator
   props C06
   option pure
@@ -96,12 +100,6 @@ extern evaluateNodeValue
   props C06
 
 extern evaluateBoolNode
-  props C06
-
-extern evaluateBoolOperator
-  props C06
-
-extern evaluateIsOperator
   props C06
 
 func evaluateOperatorNode
@@ -196,4 +194,187 @@ func evaluateFunctionValue
   observe verr := Validate
   before Execute arguments-were-validated-first: $verr == nil
   loop 1 invariant len(args) == len(node.Args) && node != nil
+@*/
+
+/*@
+// ---------------------------------------------------------------- C06/C13: logic and IS [NOT] NULL
+func evaluateBoolOperator
+  props C06 C13
+  option safety
+  requires node != nil
+  observe b := evaluateBoolNode
+  atreturn and-is-true-only-when-both-sides-are: result1 == nil && (strings.ToUpper(node.Value) == "AND" || strings.ToUpper(node.Value) == "&&") ==> (result0 <==> (left && $b))
+  atreturn or-is-true-when-either-side-is: result1 == nil && (strings.ToUpper(node.Value) == "OR" || strings.ToUpper(node.Value) == "||") ==> (result0 <==> (left__2 || $b))
+  atreturn not-negates-its-operand: result1 == nil && (strings.ToUpper(node.Value) == "NOT" || strings.ToUpper(node.Value) == "!") ==> (result0 <==> !$b)
+
+func evaluateIsOperator
+  props C06 C13
+  option safety
+  requires node != nil
+  atreturn is-null-tests-nullness-of-the-left-operand: result1 == nil && node.Right != nil && node.Right.Type == TypeField && strings.ToUpper(node.Right.Value) == "NULL" && strings.ToUpper(node.Value) == "IS" ==> result0 == boxof(leftIsNull, bool)
+  atreturn is-not-null-is-its-negation: result1 == nil && node.Right != nil && node.Right.Type == TypeField && strings.ToUpper(node.Right.Value) == "NULL" && strings.ToUpper(node.Value) == "IS NOT" ==> result0 == boxof(!leftIsNull, bool)
+@*/
+
+/*@
+// ---------------------------------------------------------------- C06: the expression parser (precedence climbing by recursive descent)
+// Every level parses its operands one level tighter, consumes every operator of its own level, never panics and
+// terminates (measure 16*len(tokens) + rank of the nonterminal).
+extern isNumber
+  props C06
+  option pure
+
+func isStringLiteral
+  props C06
+  option safety
+  option pure
+
+extern isIdentifier
+  props C06
+  option pure
+
+extern isOperator
+  props C06
+  option pure
+
+func parseFunctionCall
+  props C06
+  option safety
+  recgroup exprparse
+  decreases 16 * len(tokens)
+  ensures success-gives-a-node-and-consumes-input: result2 == nil ==> result0 != nil && len(result1) < len(tokens)
+  loop 1 invariant len(remaining) < len(tokens) && len(remaining) >= 0
+  loop 1 decreases len(remaining)
+
+func parsePrimaryExpression
+  props C06
+  option safety
+  recgroup exprparse
+  decreases 16 * len(tokens) + 1
+  ensures success-gives-a-node-and-consumes-input: result2 == nil ==> result0 != nil && len(result1) < len(tokens)
+
+func parseUnaryExpression
+  props C06
+  option safety
+  recgroup exprparse
+  decreases 16 * len(tokens) + 2
+  ensures success-gives-a-node-and-consumes-input: result2 == nil ==> result0 != nil && len(result1) < len(tokens)
+
+func parsePowerExpression
+  props C06
+  option safety
+  recgroup exprparse
+  decreases 16 * len(tokens) + 3
+  before parseUnaryExpression the-base-of-a-power-is-a-unary-expression: true
+  ensures success-gives-a-node-and-consumes-input: result2 == nil ==> result0 != nil && len(result1) < len(tokens)
+
+func parseTermExpression
+  props C06
+  option safety
+  recgroup exprparse
+  decreases 16 * len(tokens) + 4
+  before parsePowerExpression factors-bind-tighter-than-multiplication: true
+  ensures success-gives-a-node-and-consumes-input: result2 == nil ==> result0 != nil && len(result1) < len(tokens)
+  ensures every-multiplicative-operator-at-this-level-is-consumed: result2 == nil && len(result1) > 0 ==> result1[0] != "*" && result1[0] != "/" && result1[0] != "%"
+  loop 1 invariant left != nil && len(remaining) < len(tokens)
+  loop 1 decreases len(remaining)
+
+func parseArithmeticExpression
+  props C06
+  option safety
+  recgroup exprparse
+  decreases 16 * len(tokens) + 5
+  before parseTermExpression terms-bind-tighter-than-addition: true
+  ensures success-gives-a-node-and-consumes-input: result2 == nil ==> result0 != nil && len(result1) < len(tokens)
+  ensures every-additive-operator-at-this-level-is-consumed: result2 == nil && len(result1) > 0 ==> result1[0] != "+" && result1[0] != "-"
+  loop 1 invariant left != nil && len(remaining) < len(tokens)
+  loop 1 decreases len(remaining)
+
+func parseComparisonExpression
+  props C06
+  option safety
+  recgroup exprparse
+  decreases 16 * len(tokens) + 6
+  before parseArithmeticExpression arithmetic-binds-tighter-than-comparison: true
+  ensures success-gives-a-node-and-consumes-input: result2 == nil ==> result0 != nil && len(result1) < len(tokens)
+
+func parseAndExpression
+  props C06
+  option safety
+  recgroup exprparse
+  decreases 16 * len(tokens) + 7
+  before parseComparisonExpression comparisons-bind-tighter-than-and: true
+  ensures success-gives-a-node-and-consumes-input: result2 == nil ==> result0 != nil && len(result1) < len(tokens)
+  ensures every-and-at-this-level-is-consumed: result2 == nil && len(result1) > 0 ==> strings.ToUpper(result1[0]) != "AND"
+  loop 1 invariant left != nil && len(remaining) < len(tokens)
+  loop 1 decreases len(remaining)
+
+func parseOrExpression
+  props C06
+  option safety
+  recgroup exprparse
+  decreases 16 * len(tokens) + 8
+  before parseAndExpression and-binds-tighter-than-or: true
+  ensures success-gives-a-node-and-consumes-input: result2 == nil ==> result0 != nil && len(result1) < len(tokens)
+  ensures every-or-at-this-level-is-consumed: result2 == nil && len(result1) > 0 ==> strings.ToUpper(result1[0]) != "OR"
+  loop 1 invariant left != nil && len(remaining) < len(tokens)
+  loop 1 decreases len(remaining)
+
+func parseCaseExpression
+  props C06
+  option safety
+  ensures success-gives-a-case-node: result2 == nil ==> result0 != nil && fresh(result0) && result0.Type == TypeCase && result0.CaseExpr != nil && len(result1) < len(tokens)
+  ensures every-when-has-its-condition-and-its-result: result2 == nil ==> forall(i, 0, len(result0.CaseExpr.WhenClauses), result0.CaseExpr.WhenClauses[i].Condition != nil && result0.CaseExpr.WhenClauses[i].Result != nil)
+  loop 1 invariant caseExpr != nil && fresh(caseExpr) && len(remaining) < len(tokens) && forall(i, 0, len(caseExpr.WhenClauses), caseExpr.WhenClauses[i].Condition != nil && caseExpr.WhenClauses[i].Result != nil)
+  loop 1 decreases len(remaining)
+
+func parseExpression
+  props C06
+  option safety
+  ensures a-tree-or-an-error: result1 == nil ==> result0 != nil
+@*/
+
+/*@
+// ---------------------------------------------------------------- C06: the expression tokenizer never panics and terminates
+func isDigit
+  props C06
+  option pure
+  ensures result <==> (48 <= ch && ch <= 57)
+
+func isLetter
+  props C06
+  option pure
+  ensures result <==> ((97 <= ch && ch <= 122) || (65 <= ch && ch <= 90))
+
+func valueEnding
+  props C06
+  option safety
+  option pure
+
+func precededByValue
+  props C06
+  option safety
+  requires 0 <= i && i <= len(expr)
+  loop 1 invariant -1 <= j && j < i
+  loop 1 decreases j + 1
+
+func tokenize
+  props C06
+  option safety
+  ensures tokens-or-an-error: result1 == nil ==> len(result0) >= 0
+  loop 1 invariant 0 <= i && i <= len(expr)
+  loop 1 decreases len(expr) - i
+  loop 2 invariant 0 <= i && i <= len(expr) && i > atloop(1, i) && start == atloop(1, i)
+  loop 2 decreases len(expr) - i
+  loop 3 invariant 0 <= i && i <= len(expr) && i > atloop(1, i) && start__2 == atloop(1, i)
+  loop 3 decreases len(expr) - i
+  loop 4 invariant 0 <= i && i <= len(expr) && i >= atloop(1, i) && start__3 == atloop(1, i)
+  loop 4 decreases len(expr) - i
+  loop 5 invariant 0 <= i && i <= len(expr) && i > atloop(1, i) && start__3 == atloop(1, i)
+  loop 5 decreases len(expr) - i
+  loop 6 invariant 0 <= i && i <= len(expr) && i > atloop(1, i) && start__3 == atloop(1, i)
+  loop 6 decreases len(expr) - i
+  loop 7 invariant 0 <= i && i <= len(expr) && i >= atloop(1, i) && start__4 == atloop(1, i)
+  loop 7 decreases len(expr) - i
+  loop 8 invariant 0 <= i && i <= len(expr) && i > atloop(1, i) && i > atloop(7, i) && start__4 == atloop(1, i)
+  loop 8 decreases len(expr) - i
 @*/
